@@ -143,31 +143,38 @@ pub enum NodeStatus {
 
 // ---- timer stand-in: `pending` maps the id of every scheduled-and-not-yet-fired/cancelled timeout to (task, delay in ns)
 //      ASSUMED contract of timer.rs:37-68 (schedule inserts under a fresh id, cancel removes exactly that id)
-pub struct Timeout { pub id: u64 }
-impl Clone for Timeout { #[verifier::external_body] fn clone(&self) -> (r: Self) ensures r == *self { unimplemented!() } }
-impl Copy for Timeout {}
-pub struct Timer<T> { pub next_id: u64, pub pending: Ghost<Map<int, (T, nat)>> }
+/// tokio::time::Instant stand-in and its clock (frozen during one synchronous call)
+#[derive(Structural, Clone, Copy, PartialEq, Eq)]
+pub struct TokioInstant { pub t: u64 }
+pub uninterp spec fn tclock() -> int;
+// stand-in of timer.rs `Timeout { deadline, id }` (the real struct is a region of unit `timer`)
+#[derive(Structural, Clone, Copy, PartialEq, Eq)]
+pub struct Timeout { pub deadline: TokioInstant, pub id: u64 }
+/// Timer stand-in carrying the contracts PROVED in unit `timer` for the real Timer::{schedule_in, cancel}: `pending` is the
+/// abstract view (every scheduled entry that has neither fired nor been cancelled, keyed by its token).  The only difference
+/// to the proved contracts: the precondition next_id < u64::MAX is dropped (ASSUMED: fewer than 2^64 timeouts per run).
+pub struct Timer<T> { pub next_id: u64, pub pending: Ghost<Map<Timeout, T>> }
 impl<T> Timer<T> {
-    /// ids are handed out by a counter (timer.rs:64-68; ASSUMED: fewer than 2^64 timeouts per run, so it never wraps)
-    pub open spec fn wf(&self) -> bool { forall|id: int| #[trigger] self.pending@.contains_key(id) ==> 0 <= id < self.next_id }
+    pub open spec fn wf(&self) -> bool { forall|k: Timeout| #[trigger] self.pending@.contains_key(k) ==> k.id < self.next_id }
     #[verifier::external_body]
-    pub fn schedule_in(&mut self, deadline: Duration, value: T) -> (r: Timeout)
+    pub fn schedule_in(&mut self, deadline: Duration, value: T) -> (key: Timeout)
         requires old(self).wf()
-        ensures final(self).wf(), r.id == old(self).next_id, final(self).next_id == old(self).next_id + 1,
-            final(self).pending@ == old(self).pending@.insert(r.id as int, (value, dur_nanos(deadline)))
+        ensures final(self).wf(), key.id == old(self).next_id, final(self).next_id == old(self).next_id + 1,
+            final(self).pending@ == old(self).pending@.insert(key, value),
+            key.deadline.t as int == tclock() + dur_nanos(deadline),
     { unimplemented!() }
     #[verifier::external_body]
     pub fn cancel(&mut self, timeout: Timeout) -> (r: bool)
         requires old(self).wf()
         ensures final(self).wf(), final(self).next_id == old(self).next_id,
-            r == old(self).pending@.contains_key(timeout.id as int), final(self).pending@ == old(self).pending@.remove(timeout.id as int)
+            r == old(self).pending@.contains_key(timeout), final(self).pending@ == old(self).pending@.remove(timeout)
     { unimplemented!() }
 }
 /// what a search may do to the timer: cancel/fire old entries, schedule new ones under fresh ids, never a table-refresh entry
 pub open spec fn no_new_refresh(o: Timer<ScheduledTaskCheck>, f: Timer<ScheduledTaskCheck>) -> bool {
     f.wf() && f.next_id >= o.next_id
-    && (forall|id: int| #[trigger] f.pending@.contains_key(id) && id < o.next_id ==> o.pending@.contains_key(id) && o.pending@[id] == f.pending@[id])
-    && (forall|id: int| #[trigger] f.pending@.contains_key(id) && id >= o.next_id ==> !(f.pending@[id].0 is TableRefresh))
+    && (forall|k: Timeout| #[trigger] f.pending@.contains_key(k) && k.id < o.next_id ==> o.pending@.contains_key(k) && o.pending@[k] == f.pending@[k])
+    && (forall|k: Timeout| #[trigger] f.pending@.contains_key(k) && k.id >= o.next_id ==> !(f.pending@[k] is TableRefresh))
 }
 
 // ---- lookup stand-in: contracts of the entry points used by the handler (recv_finished is proved in unit `lookup`)
